@@ -121,10 +121,52 @@ def payload(rng, i):
              '</p></pre></td></title><vx7q%d>' % i, '<!-- vx7q%d --><script>vx7q%d()</script>' % (i, i),
              '<![CDATA[<vx7q%d>]]>' % i, ']]><vx7q%d/>' % i, 'plain vx7qtext%d' % i]
     p = rng.pick(forms)
+    if rng.chance(0.12):
+        # long fields: anything that shortens, wraps or post-processes a field after escaping shows here
+        filler = ''.join(rng.pick('&<>"\'ab &&<<') for _ in range(rng.randint(250, 1500)))
+        cut = rng.randrange(len(filler))
+        p = filler[:cut] + p + filler[cut:]
     if rng.chance(0.35):
         extra = ''.join(rng.pick('<>&"\'{}[]#/\\%;= \t\né☃\x01\x7f`$|~!?:.-_aZ09') for _ in range(rng.randint(1, 12)))
         p = extra + p if rng.chance(0.5) else p + extra
     return p
+
+
+def displayed(text, payload):
+    """Is `payload` shown in `text`?  Verbatim - or, for long payloads, shortened by a clean elision: the longest
+    prefix and the longest suffix of the payload that occur in the text are joined by nothing but an elision
+    marker (dots / ellipsis / blanks).  A cut through an escape sequence leaves entity debris between the two
+    parts and is not accepted."""
+    if payload in text:
+        return True
+    if len(payload) < 200:
+        return False
+    lo, hi = 0, len(payload)
+    while lo < hi:                      # longest prefix present
+        mid = (lo + hi + 1) // 2
+        if payload[:mid] in text:
+            lo = mid
+        else:
+            hi = mid - 1
+    pre = payload[:lo]
+    lo2, hi2 = 0, len(payload) - len(pre)
+    while lo2 < hi2:                    # longest suffix present (not overlapping the prefix)
+        mid = (lo2 + hi2 + 1) // 2
+        if payload[len(payload) - mid:] in text:
+            lo2 = mid
+        else:
+            hi2 = mid - 1
+    suf = payload[len(payload) - lo2:] if lo2 else ''
+    if len(pre) + len(suf) < 100 or not pre or not suf:
+        return False
+    start = text.find(pre)
+    while start != -1:
+        rest = text[start + len(pre):]
+        j = rest.find(suf)
+        if j != -1 and j <= 12 and all(c in ' .…' for c in rest[:j]) and j > 0:
+            return True
+        start = text.find(pre, start + 1)
+    return False
 
 
 def xml_ok(s):
@@ -368,7 +410,7 @@ def judge(sh, case, record=True):
                 return
             texts = dict((c[0], c[1]) for c in cur)
             for f, v in fields.items():
-                if texts.get(f) != v:
+                if texts.get(f) != v and not displayed(texts.get(f) or '', v):
                     bad('xml-field-differs', '%s is %r, expected %r' % (f, texts.get(f), v))
                     return
                 sh.hit('canary-as-text:' + f)
@@ -392,7 +434,7 @@ def judge(sh, case, record=True):
         ctx_page = case['cls'] in ('ContextualInternalServerError', 'ContextualNotFound')   # own page layout
         if not ctx_page:
             for f, v in fields.items():
-                if v not in text:
+                if not displayed(text, v):
                     bad('html-field-not-verbatim', '%s %r does not appear as text in the page (text starts %r)' % (f, v, text[:200]))
                     return
                 sh.hit('canary-as-text:' + f)
@@ -412,7 +454,7 @@ def judge(sh, case, record=True):
     if kind == 'uncaught' and case['handler'] == 'debug':
         sh.hit('debug-500-parsed')
         for name, v in (('exc_value', case['msg']), ('header', case['hdr'].encode('utf8').decode('latin-1')), ('query', case['qv'])):
-            if v not in text and not (name == 'query' and repr(v) in text):     # URL params are shown as reprs
+            if not displayed(text, v) and not (name == 'query' and repr(v) in text):     # URL params are shown as reprs
                 bad('html-field-not-verbatim', '%s %r does not appear as text in the debug 500 page' % (name, v))
                 return
             sh.hit('canary-as-text:' + name)
